@@ -22,7 +22,7 @@ func init() {
 			"(P12-today) today's split puts every record in exactly one of three lists and every return hands back all non-empty lists; (P12-print) --with-totals prefixes are Total(record) and Entries()[i].Duration(); " +
 			"(P12-now-applied) every command embedding NowArgs/DecimalArgs applies them, and returns ApplyNow's error. " +
 			"Not covered: calendar correctness of the hash components (C15), sums as numbers, gap filling arithmetic, row rendering.",
-		rules: []ruleFn{ruleP12Hash, ruleP12Group, ruleP12Today, ruleP12Print, ruleP12NowApplied, ruleP12NowAll, ruleP12Fill, ruleP02Diff, ruleP13SortCopy},
+		rules: []ruleFn{ruleP12Hash, ruleP12Populate, ruleP12Group, ruleP12Today, ruleP12Print, ruleP12NowApplied, ruleP12NowAll, ruleP12Fill, ruleP02Diff, ruleP13SortCopy},
 	})
 }
 
